@@ -1,14 +1,231 @@
 import Model.Util
 /-
-  Model/Tournament.lean — (stub) executable model; see DESIGN.md.  Core Lean only.
+  Model/Tournament.lean — executable model of `agilerl.hpo.tournament.TournamentSelection`.
+  Core Lean only.
+
+  What is modelled (tournament.py, line by line):
+
+  * `_elitism`   : `last_fitness = [np.mean(a.fitness[-eval_loop:]) for a in population]`
+                   `rank = np.argsort(last_fitness).argsort()`; `max_id = max(a.index …)`;
+                   the elite is `population[np.argsort(rank)[-1]]`, i.e. the position holding the
+                   largest rank; it is returned as `model.clone()` (index kept).
+  * `_tournament`: `selection = np.random.randint(0, len(rank), size=tournament_size)` — k draws
+                   *with replacement* from the positions of the population — then
+                   `selection[np.argmax([rank[i] for i in selection])]` (first maximum).
+  * `select`     : with elitism the first member is `elite.clone()` (index kept) and
+                   `population_size - 1` tournaments follow, otherwise `population_size`
+                   tournaments; the t-th tournament child is `parent.clone(max_id + 1 + t)`.
+
+  What is a parameter, never a default:
+
+  * the random draws (`draws t` = the list drawn for the t-th tournament),
+  * the ranking: `np.argsort` is not a stable sort in general, so every theorem quantifies over
+    *any* `rank` satisfying `IsRanking` (injective and consistent with `≤` on the means);
+    `stableRank` is one executable instance, used by the driver.
+  * `np.mean([])` is NaN (numpy warns, does not raise) and numpy sorts NaN last: a mean is a
+    `Key := Option Rat` with `none` = NaN = top element of the order `kle`.
+
+  Objects: `clone` allocates a fresh object; `selectHeap` threads an explicit store (address =
+  position) so that "the old population is untouched" is a statement about the store.
 -/
+namespace Tournament
+
+structure Agent where
+  index   : Int
+  fitness : List Rat
+  tag     : Nat := 0            -- identity marker (whatever else a clone copies); never read by select
+deriving Repr, DecidableEq, Inhabited
+
+structure Cfg where
+  tsize    : Nat
+  elitism  : Bool
+  popSize  : Nat
+  evalLoop : Nat
+deriving Repr, DecidableEq
+
+/-- the constructor's assertions -/
+def Cfg.valid (c : Cfg) : Prop := 0 < c.tsize ∧ 0 < c.popSize ∧ 0 < c.evalLoop
+
+instance (c : Cfg) : Decidable c.valid := by unfold Cfg.valid; exact inferInstance
+
+/-! ### means -/
+
+/-- a mean as numpy computes it: `none` is NaN (mean of an empty slice) -/
+abbrev Key := Option Rat
+
+/-- the order numpy's sort uses on floats: NaN is larger than everything -/
+def kle : Key → Key → Bool
+  | _, none => true
+  | none, some _ => false
+  | some a, some b => decide (a ≤ b)
+
+def klt (a b : Key) : Bool := kle a b && !kle b a
+
+/-- Python `l[-w:]` for `w ≥ 1` -/
+def lastN (w : Nat) (l : List Rat) : List Rat := l.drop (l.length - w)
+
+/-- `np.mean` -/
+def mean? (l : List Rat) : Key :=
+  match l with
+  | [] => none
+  | _ => some (l.sum / (l.length : Rat))
+
+def key (w : Nat) (a : Agent) : Key := mean? (lastN w a.fitness)
+
+def keys (w : Nat) (pop : List Agent) : List Key := pop.map (key w)
+
+/-! ### ranking -/
+
+/-- position of the first maximum (`np.argmax`); 0 on the empty list -/
+def argmaxFirst : List Nat → Nat
+  | [] => 0
+  | v :: vs =>
+    match vs with
+    | [] => 0
+    | _ => let j := argmaxFirst vs
+           if vs.getD j 0 > v then j + 1 else 0
+
+/-- one concrete ranking: `rank[i]` = number of positions that a *stable* ascending sort puts
+    before `i` (smaller mean, or equal mean and smaller position) -/
+def before (ks : List Key) (j i : Nat) : Bool :=
+  klt (ks.getD j none) (ks.getD i none) || (!klt (ks.getD i none) (ks.getD j none) && decide (j < i))
+
+def stableRank (ks : List Key) : List Nat :=
+  (List.range ks.length).map fun i => ((List.range ks.length).filter fun j => before ks j i).length
+
+/-- What `np.argsort(x).argsort()` guarantees whatever sorting algorithm numpy picks and however
+    it breaks ties: one rank per position, no rank used twice, and a smaller rank never belongs to
+    a strictly larger mean.  (For numpy's result the ranks are moreover a permutation of
+    `0 … n-1`; nothing below needs that.) -/
+def IsRanking (ks : List Key) (rank : List Nat) : Prop :=
+  rank.length = ks.length ∧
+  (∀ i j, i < ks.length → j < ks.length → rank.getD i 0 = rank.getD j 0 → i = j) ∧
+  (∀ i j, i < ks.length → j < ks.length → rank.getD i 0 < rank.getD j 0 →
+      kle (ks.getD i none) (ks.getD j none) = true)
+
+/-- `population[np.argsort(rank)[-1]]`: the position holding the largest rank -/
+def elitePos (rank : List Nat) : Nat := argmaxFirst rank
+
+/-- `_tournament`: the drawn position with the largest rank (first one on equal rank, which can
+    only be the same position drawn twice when `rank` is injective) -/
+def winner (rank : List Nat) (ds : List Nat) : Nat :=
+  ds.getD (argmaxFirst (ds.map fun d => rank.getD d 0)) 0
+
+/-- `max([ind.index for ind in population])` -/
+def maxId : List Agent → Int
+  | [] => 0
+  | a :: r => r.foldl (fun m b => max m b.index) a.index
+
+/-! ### select -/
+
+def selSize (c : Cfg) : Nat := if c.elitism then c.popSize - 1 else c.popSize
+
+/-- `agent.clone(index)` as far as this property is concerned: everything copied, index replaced -/
+def Agent.cloneAs (a : Agent) (idx : Int) : Agent := { a with index := idx }
+
+/-- one member of the new generation: which old position it was cloned from, the index it got -/
+structure Child where
+  parent : Nat
+  index  : Int
+  isElite : Bool
+deriving Repr, DecidableEq
+
+/-- the tournament children, in order: child t comes from tournament t and gets `max_id + 1 + t` -/
+def tournChildren (c : Cfg) (rank : List Nat) (pop : List Agent) (draws : Nat → List Nat) : List Child :=
+  (List.range (selSize c)).map fun t =>
+    { parent := winner rank (draws t), index := maxId pop + 1 + (t : Int), isElite := false }
+
+/-- the plan of `select`: elite position and, per member of the new population, parent and index -/
+def plan (c : Cfg) (rank : List Nat) (pop : List Agent) (draws : Nat → List Nat) : Nat × List Child :=
+  let e := elitePos rank
+  let kids := tournChildren c rank pop draws
+  (e, if c.elitism then { parent := e, index := (pop.getD e default).index, isElite := true } :: kids
+      else kids)
+
+def Child.build (pop : List Agent) (ch : Child) : Agent := (pop.getD ch.parent default).cloneAs ch.index
+
+/-- the returned elite (a clone of the best agent, index kept) -/
+def eliteOf (rank : List Nat) (pop : List Agent) : Agent :=
+  let a := pop.getD (elitePos rank) default
+  a.cloneAs a.index
+
+/-- the returned new population -/
+def newPop (c : Cfg) (rank : List Nat) (pop : List Agent) (draws : Nat → List Nat) : List Agent :=
+  (plan c rank pop draws).2.map (Child.build pop)
+
+/-- `select` with objects: the store holds the old population at addresses `0 … pop.length-1`;
+    every `clone()` allocates the next free address.  Returns the new store, the address of the
+    returned elite and the addresses of the members of the new population. -/
+def selectHeap (c : Cfg) (rank : List Nat) (store : List Agent) (draws : Nat → List Nat) :
+    List Agent × Nat × List Nat :=
+  let np := newPop c rank store draws
+  (store ++ [eliteOf rank store] ++ np,
+   store.length,
+   (List.range np.length).map fun k => store.length + 1 + k)
+
+/-- Repeated selection.  `Reach c p q`: population `q` is reachable from `p` by any number of
+    generations; in each generation anything may happen to the agents except a change of their
+    indices (evaluation appends fitness, training, mutation — `q'` below), then `select` runs with
+    an arbitrary valid ranking and arbitrary draws. -/
+inductive Reach (c : Cfg) : List Agent → List Agent → Prop
+  | refl (p : List Agent) : Reach c p p
+  | step {p q q' : List Agent} {rank : List Nat} {draws : Nat → List Nat} :
+      Reach c p q → q'.map (·.index) = q.map (·.index) → IsRanking (keys c.evalLoop q') rank →
+      Reach c p (newPop c rank q' draws)
+
+end Tournament
+
+/-! ### line protocol -/
 namespace Tournament
 open Util
 
 structure IOState where
-  dummy : Nat := 0
+  cfg : Option Cfg := none
+  pop : List Agent := []
+
+def showKey : Key → String
+  | none => "nan"
+  | some q => showRat q
+
+/-- canonical observable of one selection: elite (mean, index) then per member of the new
+    population (mean of the parent, index, elite-slot flag) -/
+def showSelection (c : Cfg) (pop : List Agent) (draws : Nat → List Nat) : String :=
+  let ks := keys c.evalLoop pop
+  let rank := stableRank ks
+  let (e, kids) := plan c rank pop draws
+  let el := eliteOf rank pop
+  let head := "E " ++ showKey (ks.getD e none) ++ " " ++ toString el.index
+  let rest := kids.map fun ch =>
+    showKey (ks.getD ch.parent none) ++ " " ++ toString ch.index ++ " " ++ showBool ch.isElite
+  " ; ".intercalate (head :: rest)
 
 def step (s : IOState) : List String → IOState × String
+  | ["cfg", t, e, p, w] =>
+    match parseNat? t, parseNat? e, parseNat? p, parseNat? w with
+    | some t, some e, some p, some w =>
+      if e > 1 then (s, "bad-op") else
+      let c : Cfg := { tsize := t, elitism := e == 1, popSize := p, evalLoop := w }
+      if c.valid then ({ cfg := some c, pop := [] }, "ok") else (s, "reject")
+    | _, _, _, _ => (s, "bad-op")
+  | "agent" :: idx :: fs =>
+    match parseInt? idx, parseRats? fs with
+    | some i, some l => ({ s with pop := s.pop ++ [{ index := i, fitness := l, tag := s.pop.length }] }, "ok")
+    | _, _ => (s, "bad-op")
+  | ["clear"] => ({ s with pop := [] }, "ok")
+  | ["means"] =>
+    match s.cfg with
+    | none => (s, "bad-op")
+    | some c => (s, " ".intercalate ((keys c.evalLoop s.pop).map showKey))
+  | "select" :: ws =>
+    match s.cfg, parseNats? ws with
+    | some c, some ds =>
+      if s.pop = [] then (s, "reject")                        -- `max([])` raises
+      else if ds.length ≠ selSize c * c.tsize then (s, "bad-op")
+      else if ds.any (fun d => d ≥ s.pop.length) then (s, "bad-op")
+      else
+        let cs := chunks c.tsize ds
+        (s, showSelection c s.pop (fun t => cs.getD t []))
+    | _, _ => (s, "bad-op")
   | _ => (s, "bad-op")
 
 end Tournament
